@@ -60,6 +60,13 @@ def make_items(k, salt=0, width_keys=6):
     multiplicities and returns the distinct power of two 2^j (as int or numpy.int64).  For k >= 3 the last record
     yields NO keys but is still counted (a document whose tokens were all filtered)."""
     items = []
+    if salt == "heavy":
+        # a key whose total multiplicity exceeds 2^32-1 although every record stays below it:
+        # split across workers the partial counts only meet in a merge
+        for j in range(k):
+            ks = {KEYS[0]: 2**31 + 5} if j < 2 else {KEYS[4]: 1 + j}
+            items.append({"id": j, "keys": ks, "ret": 2**j})
+        return items
     for j in range(k):
         ks = {}
         for t in range(1 + (j + salt) % 3):
@@ -221,7 +228,13 @@ def check_outcome(ref, outcome, objects, must, may, records_expected, label=""):
         if n not in names:
             continue
         o = outcome[n]
-        if not (n_must <= o["n_added"] <= n_may):
+        cut = n == "cms" and max(list(t_may.values()) + [0]) > U32
+        if cut:
+            # a linear add that hits the ceiling is cut short (and so is n_added, C05): only the
+            # upper limit is judged when some key's total exceeds 2^32-1
+            if o["n_added"] > n_may:
+                probs.append(f"cms: n_added() = {o['n_added']} exceeds the total multiplicity {n_may}")
+        elif not (n_must <= o["n_added"] <= n_may):
             probs.append(f"{n}: n_added() = {o['n_added']}, total multiplicity added is "
                          f"{n_must}" + (f"..{n_may}" if n_may != n_must else ""))
         if o["n_records"] != records_expected:
